@@ -17,6 +17,9 @@ Oracle clauses (violation key = C14:<clause>:<site or field>):
   repack:<kind>@<offset>                 pack(parse(b)) != b; <kind> is the innermost header whose bytes differ
   length:<where>.<field>, checksum:<where>   emitted length / checksum field != reference
   checksum-fn:<class>                    packet_utils.checksum() != RFC 1071 on a bare buffer
+  edit-lost:<kind>.<attr>                bytes -> parse -> assign the attribute -> pack -> parse: the new value is gone
+  edit-corrupts:<kind>.<attr>            ... another attribute (the one named) differs from the packet built from scratch
+  edit-checksum:<where>, edit-length:<where>.<field>   ... the new bytes carry a stale checksum / length
 """
 import os, sys, traceback
 from mc.engine import pmap
@@ -270,6 +273,140 @@ def locate_diff (P, objs, kinds, payload, b, b2):
 
 
 # ---------------------------------------------------------------------------------------------
+# edit after parse:  bytes -> parse -> assign one field of one header -> pack -> parse
+# ---------------------------------------------------------------------------------------------
+NOT_FIELDS = frozenset(["prev", "next", "raw", "parsed"])
+COMPUTED_LEN_KINDS = frozenset(["eapol", "eap"])      # their length field is supplied by the builder from the inner size
+
+
+def _flatten (x, c):
+  if x is None: return b""
+  if isinstance(x, bytes): return x
+  c.calls += 1
+  return x.pack()
+
+
+def check_edit (P, st, dev, plen):
+  """One edit case.  The base vector of the stack is assembled, packed and parsed; then the single
+  deviation `dev` = (layer, field, alternative) is applied to the PARSED object chain by plain attribute
+  assignment (the values come from a 'donor' object assembled from scratch with that deviation, so
+  addresses / option lists have the library's own types; attributes the user maintains together with the
+  field, e.g. llc.length or ipv4.hl, are assigned with it).  The edited chain is packed and parsed again
+  and must read back exactly like the donor packet assembled from scratch:
+     edit-lost:<kind>.<attr>       the assigned attribute does not read back with its new value
+     edit-corrupts:<kind>.<attr>   another attribute (named in the key; e.g. a stale checksum or length) differs from
+                                   the packet assembled from scratch; edit-corrupts:<kind>.<field> with the ASSIGNED
+                                   field when a header stops parsing / the payload or uncompared bytes change
+     edit-checksum:<where> / edit-length:<where>.<field>   the new bytes do not verify (rfc1071)
+  Returns a Case, or None when the case does not apply (the from-scratch round trip of base or donor is
+  itself broken - the main phase reports that - or the deviation does not change the object)."""
+  li, f, ai = dev
+  kinds = [k for k, _ in st["layers"]]
+  k_li = kinds[li]
+  c = Case()
+  for d in ((), (dev,)):
+    pre = check_case(P, st, d, plen)
+    c.calls += pre.calls
+    if pre.viols: return None
+  try:
+    top0, objs0, vs0, payload0 = K.build(P, st, (), plen); b0 = top0.pack()
+    objsU = K.build(P, st, (), plen)[1]                  # never packed: attribute defaults before pack()
+    topd, objsd, vsd, payloadd = K.build(P, st, (dev,), plen); bd = topd.pack()
+    objsV = K.build(P, st, (dev,), plen)[1]              # never packed: donor of the new values
+    p0 = P.pkt.ethernet(raw=b0)
+    pd = P.pkt.ethernet(raw=bd)
+    c.calls += 8
+  except Exception:
+    return None
+  if len(bd) != len(b0) and (COMPUTED_LEN_KINDS & set(kinds[:li]) or
+                             any(v.get("type") == "len" or v.get("eth_type") == "len" for v in vs0[:li])):
+    return None      # an outer length field that the USER supplies would have to be edited as well
+  cur = p0
+  for i in range(li + 1):
+    if not isinstance(cur, K.KINDS[kinds[i]]["cls"](P)) or not getattr(cur, "parsed", False): return None
+    if i < li: cur = cur.next
+  du, dv = vars(objsU[li]), vars(objsV[li])
+  edited = []
+  for a in sorted(dv):
+    if a in NOT_FIELDS: continue
+    if canon(dv[a]) != canon(du.get(a, MISSING)):
+      setattr(cur, a, dv[a])
+      edited.append(a)
+  if not edited: return None
+  label = "%s.%s" % (k_li, f)
+  try:
+    c.calls += 1
+    be = p0.pack()
+  except Exception as e:
+    _raised(c, e, "pack() after assigning %s of a parsed packet" % label); return c
+  c.frame = be
+  try:
+    c.calls += 1
+    pe = P.pkt.ethernet(raw=be)
+  except Exception as e:
+    _raised(c, e, "parsing the bytes packed after assigning %s" % label); return c
+  ce, cd = pe, pd
+  names = []
+  lost = corrupt = False
+  diffs = []                                  # (layer, kind, attr, from-scratch value, value after the edit)
+  for i, k in enumerate(kinds):
+    cls = K.KINDS[k]["cls"](P)
+    if not isinstance(cd, cls) or not getattr(cd, "parsed", False): break
+    if not isinstance(ce, cls) or not getattr(ce, "parsed", False):
+      c.bad("edit-corrupts:" + label, "after assigning %s on the parsed packet and packing, the %s header came back as %s "
+            "(assembled from scratch with the same value it parses)" % (label, k, describe(ce, P)))
+      corrupt = True
+      break
+    names.append(type(ce).__name__)
+    for a in K.KINDS[k]["cmp"]:
+      x, z = canon(getattr(cd, a, MISSING)), canon(getattr(ce, a, MISSING))
+      if x != z: diffs.append((i, k, a, x, z))
+    ce, cd = ce.next, cd.next
+  if not corrupt:
+    mine = [d for d in diffs if d[0] == li and d[2] in edited]
+    for i, k, a, x, z in mine:
+      # the assigned attribute itself did not survive: everything else that differs follows from that
+      c.bad("edit-lost:%s.%s" % (k, a), "parsed a packet, assigned %s.%s = %s, packed and parsed again: it reads back as %s"
+            % (k, a, short(x, 80), short(z, 80)))
+      lost = True
+    if not lost and diffs:
+      i, k, a, x, z = diffs[0]
+      # keyed by the attribute that was damaged (e.g. a checksum / length that was not recomputed), not by the
+      # one that was assigned: one stale field gives one key however many edits reveal it
+      c.bad("edit-corrupts:%s.%s" % (k, a), "after assigning %s on the parsed packet, %s.%s reads back as %s; the same packet "
+            "assembled from scratch gives %s" % (label, k, a, short(z, 80), short(x, 80)))
+      corrupt = True
+  c.chain = "/".join(names)
+  if not (lost or corrupt):
+    try:
+      if _flatten(ce, c) != _flatten(cd, c):
+        c.bad("edit-corrupts:" + label, "after assigning %s on the parsed packet the bytes below the headers changed" % label)
+        corrupt = True
+    except Exception as e:
+      _raised(c, e, "packing the payload after assigning %s" % label); corrupt = True
+  if not (lost or corrupt):
+    r = R.verify_frame(be)
+    for clause, where, field, want, got in r.issues:
+      wk = where.rsplit(">", 1)[-1]
+      if clause == "checksum":
+        c.bad("edit-checksum:%s" % wk, "after assigning %s on the parsed packet, %s %s in the new frame is %#06x, RFC 1071 gives %#06x"
+              % (label, where, field, got, want))
+      else:
+        c.bad("edit-length:%s.%s" % (wk, field), "after assigning %s on the parsed packet, %s %s in the new frame is %s, the raw bytes say %s"
+              % (label, where, field, got, want))
+    if not c.viols and be != bd:
+      c.bad("edit-corrupts:" + label, "after assigning %s on the parsed packet the new frame differs from the one assembled from "
+            "scratch with the same values (first difference at offset %d) although every compared field agrees" % (label, first_diff(be, bd)))
+  return c
+
+
+def edit_plens (st, quick):
+  plens = st["plens"]
+  pick = [n for n in ((18,) if quick else (0, 1, 18)) if n in plens]
+  return pick or list(plens[:1])
+
+
+# ---------------------------------------------------------------------------------------------
 # enumeration
 # ---------------------------------------------------------------------------------------------
 
@@ -334,7 +471,35 @@ def _worker (batch):
   return rep
 
 
+def _run_edits (rep, name):
+  P = K.pox_namespace()
+  st = K.STACKS[name]
+  for plen in edit_plens(st, _worker.quick):
+    for dev in K.deviations(st):
+      try:
+        c = check_edit(P, st, dev, plen)
+      except Exception:
+        rep.error("edit case %s %r plen=%d: %s" % (name, dev, plen, traceback.format_exc(limit=4)))
+        continue
+      if c is None:
+        rep.extra["edit_cases_not_applicable"] = rep.extra.get("edit_cases_not_applicable", 0) + 1
+        continue
+      rep.evaluations += 1
+      rep.transitions += c.calls
+      rep.extra["edit_cases"] = rep.extra.get("edit_cases", 0) + 1
+      keys = sorted(set(k for k, _ in c.viols))
+      rep.outcome(("edit", keys, digest(c.frame) if c.frame is not None else None, c.chain))
+      seen = set()
+      for k, what in c.viols:
+        if k in seen: continue
+        seen.add(k)
+        rep.violation("%s:%s" % (PID, k), "[%s] %s" % (name, what),
+                      dict(kind="edit", stack=name, dev=list(dev), plen=plen))
+
+
 def _run_part (rep, name, part):
+  if part == "edit":
+    return _run_edits(rep, name)
   P = K.pox_namespace()
   st = K.STACKS[name]
   cases = cases_for(st, _worker.quick, part)
@@ -436,6 +601,7 @@ def run (cfg):
   for name in names:
     nd1 = len(K.deviations(K.STACKS[name]))
     parts.extend(((name, i), estimate(K.STACKS[name], quick, i)) for i in range(-1, nd1))
+    parts.append(((name, "edit"), 6 * nd1 * len(edit_plens(K.STACKS[name], quick))))
   total = sum(n for _, n in parts)
   target = max(1500, total // (max(1, cfg.workers) * 12))
   cur, size = [], 0
@@ -460,12 +626,15 @@ def run (cfg):
               "shapes (%d deviations) x payload %s, every pair of deviations in different fields x payload %s%s; plus "
               "packet_utils.checksum on bare buffers of every length 0..%d x 7 byte patterns x skip_word {None,0,1,last}. "
               "Each case: assemble with the POX classes, pack, parse, compare chain/fields/payload, re-pack, verify length and "
-              "checksum fields with refs/rfc1071 over raw offsets. distinct = distinct (violated clauses, emitted frame, parsed chain)"
+              "checksum fields with refs/rfc1071 over raw offsets.  Edit-after-parse phase: per stack, the base vector x payload %s is "
+              "packed and parsed, then every single deviation is applied to the PARSED chain by attribute assignment (one field of one "
+              "header, every header in turn), packed, parsed again and compared field by field with the same packet assembled from "
+              "scratch, and its lengths/checksums verified. distinct = distinct (violated clauses, emitted frame, parsed chain)"
               % (len(names), "" if quick else "; thorough: 0..1500 on every stack whose range reaches 1500", nd,
                  "{0,1,18} (+1499,1500 on the 0..1500 stacks)" if quick else "the stack's whole range",
                  "{0,1}" if quick else "{0,1,18}",
                  "" if quick else ", every triple of deviations in different fields x payload {0,1} on stacks with <= 100 deviations",
-                 129 if quick else 1501))
+                 129 if quick else 1501, "{18}" if quick else "{0,1,18}"))
   rep.bound = dict(stacks=len(names), deviations=2 if quick else 3, payload_max=1500, work_items=len(items))
   rep.assumptions = ["frames carry no trailer padding (a total-length field accounts for every remaining byte)",
                      "field values are taken from the boundary sets in pktcorpus.KINDS, not from the whole wire range",
@@ -490,6 +659,18 @@ def replay (cfg, data):
     v = check_csum_fn(P, data["n"], data["pat"], data["skip"])
     return bool(v), "\n".join("%s: %s" % kv for kv in v) or "checksum agrees with RFC 1071"
   st = K.STACKS[data["stack"]]
+  if data.get("kind") == "edit":
+    dev = tuple(data["dev"])
+    c = check_edit(P, st, dev, data["plen"])
+    val = K.values(st, (dev,))[dev[0]][dev[1]]
+    lines = ["stack %s, payload %d bytes: base vector packed and parsed; then on the parsed chain layer %d (%s) %s := %s; "
+             "packed and parsed again" % (st["name"], data["plen"], dev[0], st["layers"][dev[0]][0], dev[1], short(val, 80))]
+    if c is None:
+      return False, lines[0] + "\nnot applicable (the from-scratch round trip of base or donor already fails, or nothing to assign)"
+    lines.append("frame after the edit: %s" % (c.frame.hex() if c.frame is not None else "<not produced>")[:400])
+    for k, what in c.viols:
+      lines.append("VIOLATED %s:%s: %s" % (PID, k, what))
+    return bool(c.viols), "\n".join(lines)
   devs = tuple(tuple(d) for d in data["devs"])
   c = check_case(P, st, devs, data["plen"])
   lines = ["stack %s, payload %s, deviations from the base vector:"
